@@ -34,6 +34,20 @@ def main(argv=None) -> int:
                 model_now = drv.ask([m["line"]])[0] if "...(+" not in m["line"] else "(request was truncated in the replay file)"
                 impl_now = impl.run_case(d[0], d[1], m.get("stdout_encoding", "utf-8") if m.get("stdout_encoding") != "mixed" else "utf-8") if d else "(not directly replayable: rerunning the seeded check)"
                 print(f"REPLAY {m.get('corr', '')} [{m.get('tag', '')}]\n  request: {m['line'][:300]}\n  implementation now: {impl_now[:200]}\n  model now:          {model_now[:200]}\n  recorded: impl={str(m.get('impl'))[:120]} model={str(m.get('model'))[:120]}")
+    # watchdog: a check that has not finished within its budget is an infrastructure problem (exit 2), never left hanging
+    import faulthandler
+    import threading
+    budget = float(os.environ.get("VERIF_CHECK_LIMIT", "14400" if a.tier == "thorough" else "1500"))
+
+    def _expired():
+        print(f"INFRASTRUCTURE ERROR (not a violation): check {a.prop} exceeded its time budget of {budget:.0f} s; thread stacks follow", file=sys.stderr)
+        faulthandler.dump_traceback(file=sys.stderr, all_threads=True)
+        sys.stderr.flush()
+        os._exit(2)
+    wd = threading.Timer(budget, _expired)
+    wd.daemon = True
+    wd.start()
+
     from . import leangate
     from .framework import Check
 
